@@ -1,6 +1,7 @@
 //! History explorations whose operations are tree programs: C09 (bank ledger, closure),
 //! C12 (admin / migration, closure), C08 (storage isolation).
 
+use rayon::prelude::*;
 use super::cmp::Kind;
 use super::driver::*;
 use super::explore::*;
@@ -556,8 +557,10 @@ impl cosmwasm_std::Api for PermissiveApi {
     fn debug(&self, _: &str) {}
 }
 
-/// addresses that are prefixes of each other (c, cc, ccc) and that differ only in letter case (c / C, cc / cC)
-const PREFIX_WORLD_ADDRS: [&str; 5] = ["c", "cc", "ccc", "C", "cC"];
+/// addresses that are prefixes of each other (c, cc, ccc), that differ only in letter case
+/// (c / C, cc / cC) and that are neighbours in byte order (c / d: the key space of "c" ends
+/// exactly where that of "d" begins)
+const PREFIX_WORLD_ADDRS: [&str; 6] = ["c", "cc", "ccc", "C", "cC", "d"];
 
 struct PrefixAddresses;
 impl cw_multi_test::AddressGenerator for PrefixAddresses {
@@ -611,8 +614,10 @@ fn c08_prefix_world(ctx: &Ctx, depth: usize) -> (u64, u64) {
         seqs.extend(next.iter().cloned());
         frontier = next;
     }
-    let mut transitions = 0u64;
-    for sq in &seqs {
+    let transitions_total = std::sync::atomic::AtomicU64::new(0);
+    seqs.par_iter().for_each(|sq| {
+        let mut transitions = 0u64;
+        super::puppet::set_watch(super::puppet::Watch { ring: contracts.iter().map(|c| c.to_string()).collect(), ..Default::default() });
         let mut app = build();
         let mut model: Vec<super::model::Map> = vec![Default::default(); contracts.len()];
         for oi in sq {
@@ -645,10 +650,38 @@ fn c08_prefix_world(ctx: &Ctx, depth: usize) -> (u64, u64) {
             }
             let (c, k, set) = ops[*oi];
             let w = if set { WriteOp::Set(keys[k].to_vec(), format!("v{}", c).into_bytes()) } else { WriteOp::Remove(keys[k].to_vec()) };
-            super::puppet::set_script(std::rc::Rc::new(Program { entry: Entry::WasmSudo { contract: String::new() }, root: 0, nodes: vec![Node { writes: vec![w.clone()], ..Default::default() }] }));
-            let r = catch(|| app.execute_contract(Addr::unchecked("user"), Addr::unchecked(contracts[c]), &super::puppet::NodeMsg { n: 0 }, &[]));
+            // one transaction: the write, then every contract (the writer too) looks at its own key
+            // space while the write is still pending in the transaction's cache
+            super::puppet::set_script(std::rc::Rc::new(Program { entry: Entry::WasmSudo { contract: String::new() }, root: 0, nodes: vec![Node { writes: vec![w.clone()], ..Default::default() }, Node::default()] }));
+            let mut msgs: Vec<cosmwasm_std::CosmosMsg> = vec![cosmwasm_std::WasmMsg::Execute { contract_addr: contracts[c].to_string(), msg: cosmwasm_std::to_json_binary(&super::puppet::NodeMsg { n: 0 }).unwrap(), funds: vec![] }.into()];
+            for cn in contracts.iter() {
+                msgs.push(cosmwasm_std::WasmMsg::Execute { contract_addr: cn.to_string(), msg: cosmwasm_std::to_json_binary(&super::puppet::NodeMsg { n: 1 }).unwrap(), funds: vec![] }.into());
+            }
+            let r = catch(|| app.execute_multi(Addr::unchecked("user"), msgs).map(|mut v| v.remove(0)));
             let trace = take_trace();
             transitions += 1;
+            // inside the transaction, after the write: every contract sees exactly its own model map
+            let mut after = model.clone();
+            match &w {
+                WriteOp::Set(k, v) => {
+                    after[c].insert(k.clone(), v.clone());
+                }
+                WriteOp::Remove(k) => {
+                    after[c].remove(k);
+                }
+            }
+            for rec in trace.iter().skip(1) {
+                if let Some(ci) = contracts.iter().position(|x| *x == rec.contract) {
+                    let own: super::model::Map = rec.own_store.iter().cloned().collect();
+                    if own != after[ci] {
+                        ctx.violation("c08:prefix-addresses:own-view-inside-transaction-differs", json!({"engine": "prefix-world", "contract": contracts[ci], "ops": sq.iter().map(|o| if *o == ops.len() { "instantiate".to_string() } else { format!("{:?}", ops[*o]) }).collect::<Vec<_>>(),
+                            "seen": own.iter().map(|(k, v)| format!("{}={}", show(k), show(v))).collect::<Vec<_>>(), "model": after[ci].iter().map(|(k, v)| format!("{}={}", show(k), show(v))).collect::<Vec<_>>()}));
+                    }
+                }
+            }
+            if trace.len() != 1 + contracts.len() && matches!(r, Ok(Ok(_))) {
+                ctx.violation("c08:prefix-addresses:observer-did-not-run", json!({"engine": "prefix-world", "invocations": trace.len()}));
+            }
             // what the contract itself saw at entry is its model map before the write
             if let Some(rec) = trace.first() {
                 let own: super::model::Map = rec.own_store.iter().cloned().collect();
@@ -688,8 +721,9 @@ fn c08_prefix_world(ctx: &Ctx, depth: usize) -> (u64, u64) {
                 }
             }
         }
-    }
-    (seqs.len() as u64, transitions)
+        transitions_total.fetch_add(transitions, std::sync::atomic::Ordering::Relaxed);
+    });
+    (seqs.len() as u64, transitions_total.load(std::sync::atomic::Ordering::Relaxed))
 }
 
 pub fn run_c08(ctx: &Ctx) -> i32 {
@@ -786,7 +820,7 @@ pub fn run_c08(ctx: &Ctx) -> i32 {
                "prefix_address_world": {"contracts": PREFIX_WORLD_ADDRS, "keys": ["k", "ck", "c", "", "cck", "/k"], "write_sequences": pseq, "writes_executed_and_all_views_compared": ptrans},
                "thorough_second_exploration": {"operations": alphabet3.len(), "keys": keys3.len(), "depth": 3},
                "views_compared": ["contract's own get/range at entry (trace)", "WasmQuery::Raw", "dump_wasm_raw", "App::contract_storage get + range"]}),
-        vec!["main exploration: two contracts from the same code and one from another with default bech32 addresses; second world: a permissive Api and a custom AddressGenerator give the addresses c, cc, ccc (prefixes of each other)".into()],
+        vec!["main exploration: two contracts from the same code and one from another with default bech32 addresses; second world: a permissive Api and a custom AddressGenerator give the addresses c, cc, ccc (prefixes of each other), C, cC (case variants) and d (byte-order neighbour of c); every write there is one transaction in which all contracts then read their own key space".into()],
         json!({}),
     )
 }
